@@ -38,7 +38,7 @@ var propRules = map[string]*PropSpec{
 			"in-place forms write only owned containers and keep flags with moved containers, so the result cannot depend on (or corrupt) copy-on-write sharing",
 			"predicates and cardinality shortcuts never read the copy-on-write flags",
 			"in the two-cursor merge loops (and the cardinality shortcuts built like them) a position variable indexes one operand's table only",
-			"no call of an in-place kernel that can answer with a different container is used as a bare statement (five triaged sites, each on a scratch bitmap container or below the 4096 threshold)",
+			"no call of an in-place kernel that can answer with a different container is used as a bare statement, unless its receiver is a bitmap container (whose words are updated in place whatever is returned); one triaged array site below the 4096 threshold",
 		},
 		NotDecided: []string{"kernel arithmetic (merge loops, galloping, run interval algebra, word masks)", "popcount assembly vs portable equality", "key-merge cursor logic", "numeric results of *Cardinality / Intersects"},
 		Technique:  techMix,
